@@ -123,6 +123,12 @@ F6(D) == IF ~D THEN {} ELSE
          : c \in Cfgs(Algs, {"k3"}, {"default"}, {"value"}, {"nested"}),
            e \in ClaimKinds, n \in ClaimKinds, mu \in {"none", "extra", "flip3", "sigbits"}, v \in {"std", "lcscheme", "twospace"}}
 
+\* F7 stacked fangs: an outer JWT fang of the same payload type, with another secret and its own (always valid) token, in front of the
+\* configured one -- what the inner fang admits does not change
+F7(D) == {Row(c, [BaseTok(c) EXCEPT !.mut = mu, !.skey = k, !.via = v, !.method = m])
+         : c \in Cfgs(Algs, (IF D THEN K3 ELSE {"k1"}), {"default"}, P2, {"stacked"}),
+           mu \in {"none", "flip3", "extra", "garbage", "trunc"}, k \in {"same", "other"}, v \in {"std", "nohdr", "wronghdr"}, m \in {"GET", "POST"}}
+
 JwtRowOK(r) ==
   LET c == r.cfg  t == r.tok  cl == JwtClass(c, t) IN
   /\ JwtRefines(c, t)
@@ -139,10 +145,10 @@ JwtRowOK(r) ==
 (* emission / exhaustive visit                                             *)
 (***************************************************************************)
 \* rows are visited group by group (a pair list / a family) so that no giant set has to be normalised
-Groups == IF WHAT = "basic" THEN PairLists(DEEP) ELSE {"F1", "F2", "F2v", "F3", "F4", "F5", "F6"}
+Groups == IF WHAT = "basic" THEN PairLists(DEEP) ELSE {"F1", "F2", "F2v", "F3", "F4", "F5", "F6", "F7"}
 RowsOf(g) == IF WHAT = "basic" THEN BasicRowsOf(DEEP, g)
              ELSE CASE g = "F1" -> F1(DEEP) [] g = "F2" -> F2(DEEP) [] g = "F2v" -> F2v(DEEP) [] g = "F3" -> F3(DEEP)
-                    [] g = "F4" -> F4(DEEP) [] g = "F5" -> F5(DEEP) [] g = "F6" -> F6(DEEP)
+                    [] g = "F4" -> F4(DEEP) [] g = "F5" -> F5(DEEP) [] g = "F6" -> F6(DEEP) [] g = "F7" -> F7(DEEP)
 RowOK(r) == IF r.mod = "basic" THEN BasicRowOK(r) ELSE JwtRowOK(r)
 
 ASSUME EMIT => \A g \in Groups : \A r \in RowsOf(g) : PrintT(ToJson(r))
